@@ -405,4 +405,7 @@ func TestC06(t *testing.T) {
 	c := c06PP
 	c.Checks = n(10, 200)
 	c.Run(t)
+	d := c06Src
+	d.Checks = n(3, 40)
+	d.Run(t)
 }
